@@ -171,7 +171,7 @@ pub fn run(tier: Tier, seed: u64) -> i32 {
                     prop: PROP.into(),
                     kind: sp.name.clone(),
                     label,
-                    files: vec![("f".into(), text)],
+                    files: vec![(if i % 16 == 15 { "@file:f" } else { "f" }.into(), text)],
                     expect: json!(null),
                 })
             },
@@ -206,7 +206,7 @@ pub fn run(tier: Tier, seed: u64) -> i32 {
                     prop: PROP.into(),
                     kind: "E-DOC corpus".into(),
                     label: format!("{} / {}", e.label, l.name),
-                    files: vec![("f".into(), r.text)],
+                    files: vec![(if i % 16 == 15 { "@file:f" } else { "f" }.into(), r.text)],
                     expect: json!(null),
                 })
             },
